@@ -684,12 +684,22 @@ class C02(PropertyCheck):
         return c
 
     def theorems_for(self, case):
+        if case["kind"] == "shape":
+            return {
+                "circular": ["C02.g_circular", "C02.g_circular_real"],
+                "annular": ["C02.g_annular", "C02.g_annular_family_real"],
+                "anti_annular": ["C02.g_anti_annular", "C02.g_annular_family_real"],
+                "elliptical": ["C02.g_elliptical", "C02.g_elliptical_real"],
+                "elliptical_annular": ["C02.g_elliptical_annular", "C02.g_annular_family_real"],
+            }[case["ctor"]] + ["C02.g_code_form_eq_polynomial_form", "C02.g_offset_measured_from_mask_origin"]
         return {
             "geom": ["C02.a_centre_formula", "C02.b_centre_roundtrip", "C02.c_containment",
-                     "C02.d_extent_is_union_of_pixel_squares", "C02.e_continuous_inverse"],
-            "grid": ["C02.f_grid_via_mask"],
-            "grid1d": ["C02.h_grid1d", "C02.h_extent1"],
-        }.get(case["kind"], ["C02.g_*"])
+                     "C02.c_variants_agree", "C02.c_inside_extent_maps_to_containing_pixel",
+                     "C02.d_extent_formula", "C02.d_extent_is_union_of_pixel_squares",
+                     "C02.e_continuous_inverse", "C02.f_grid_via_mask"],
+            "grid": ["C02.f_grid_via_mask", "C02.a_centre_formula"],
+            "grid1d": ["C02.h_grid1d", "C02.h_extent1", "C02.h_pixel1"],
+        }[case["kind"]]
 
 
 CHECK = C02()
